@@ -272,7 +272,10 @@ def ext_ref_deserialize(td, d, realm: M.Realm, opts: M.Opts):
     try:
         return ("ok", ExtRef(realm, opts).deser(td, d))
     except M.Rejected as r:
-        return ("err", r.err.flat())
+        try:
+            return ("err", r.err.flat())
+        except TypeError:  # keys of mixed classes (non-string keys) cannot be ordered by Err.flat
+            return ("err", [((), "rejected")])
 
 
 def ext_samples(td) -> List[Any]:
